@@ -27,6 +27,8 @@ CONTEXTS.update({
     "map_tuple": lambda t: P("HashMap", P("String"), Tup(t, P("i32"))),
     "result_tuple": lambda t: P("Result", Tup(t, P("i32")), P("String")),
     "ref_ref": lambda t: Ref(Ref(t)),
+    "opt_result_err": lambda t: P("Option", P("Result", P("String"), t)),      # error arm below another constructor
+    "vec_result_err": lambda t: P("Vec", P("Result", P("i32"), t)),
     "tuple4_last": lambda t: Tup(P("i32"), P("String"), P("bool"), t),
 })
 # contexts that mention the enclosing type itself next to the target (self-referential field with another type)
@@ -226,7 +228,12 @@ def build(spec):
             (fitems.insert if c.get("first") else (lambda _i, x: fitems.append(x)))(0, {
                 "kind": "fn", "name": c["name"], "attrs": [["tauri", "command"] if len(c["name"]) % 2 else ["command"]] if is_cmd else [],
                 "async": bool(len(c["name"]) % 3 == 0), "vis": "pub", "params": params, "ret": ret, "body": body})
-    return {"files": items, "config": {}}
+    cfg = {"typeMappings": dict(spec["type_mappings"])} if spec.get("type_mappings") else {}
+    return {"files": items, "config": cfg}
+
+
+def sx_mapping(spec):
+    return sorted([k, v] for k, v in (spec.get("type_mappings") or {}).items())
 
 
 def sx_item(it):
@@ -403,6 +410,10 @@ def random_spec(rng, clean=True, acyclic=None, max_types=8, events=True):
     if rng.random() < 0.5:
         types.append({"name": "AppError", "kind": "struct", "derives": ["Debug", "Serialize"], "file": rng.randrange(nfiles)})
         decoy_roles["err_only"] = len(types) - 1
+    if "err_only" in decoy_roles and rng.random() < 0.7:
+        # the error type is resolved (it is in the analyzer's graph) but not emitted; it points into the emitted set
+        for _ in range(rng.randint(1, 2)):
+            edges.append([decoy_roles["err_only"], rng.randrange(n), rng.choice(CLEAN_FIELD[:8])])
     if rng.random() < 0.25:
         owners = [i for i in range(n) if types[i]["kind"] == "struct"]
         if owners and "unreachable" in decoy_roles:
@@ -423,6 +434,8 @@ def random_spec(rng, clean=True, acyclic=None, max_types=8, events=True):
             roots.append(["ret", rng.randrange(n), rng.choice(rctx)])
             if "err_only" in decoy_roles and roots[-1][2] in ("direct", "option", "vec") and rng.random() < 0.6:
                 roots.append(["err", decoy_roles["err_only"], "direct"])
+        elif "err_only" in decoy_roles and rng.random() < 0.3:
+            roots.append(["ret", decoy_roles["err_only"], rng.choice(["result_err", "opt_result_err", "vec_result_err"])])
         if rng.random() < 0.25:
             roots.append(["channel", rng.randrange(n), rng.choice(["direct", "vec", "option"])])
         if events and rng.random() < 0.2:
@@ -448,6 +461,12 @@ def random_spec(rng, clean=True, acyclic=None, max_types=8, events=True):
             for r in c["roots"]:
                 if r[0] == "event" and len(r) == 3:
                     r.append(shared)
+    type_mappings = {}
+    if rng.random() < 0.2:                            # type_mappings naming project-defined types (and one foreign name)
+        for t in rng.sample(types[:n], min(n, rng.randint(1, 2))):
+            if t["name"][0].isupper():
+                type_mappings[t["name"]] = rng.choice(["string", "number", "boolean"])
+        type_mappings["ForeignDateTime"] = "string"
     raw_items = []
     for t in types:                                   # attribute shapes of type items
         if t["kind"] != "tuple" and rng.random() < 0.5:
@@ -479,7 +498,7 @@ def random_spec(rng, clean=True, acyclic=None, max_types=8, events=True):
         any(r[2] == "result_alias" for c in cmds for r in c["roots"])
     return {"types": types, "edges": edges, "cmds": cmds, "helpers": helpers, "nfiles": nfiles, "alias": alias,
             "shape": shape, "acyclic": acyclic, "clean": clean, "decoys": decoy_roles, "naming": naming,
-            "field_names": field_names, "raw_items": raw_items}
+            "field_names": field_names, "raw_items": raw_items, "type_mappings": type_mappings}
 
 
 def dag_shapes(n):
@@ -633,4 +652,49 @@ def name_clash_specs():
         specs.append({"types": types, "edges": [[2, 0, ctx], [0, 1, "direct"]],
                       "cmds": [{"name": "use_it", "file": 1, "roots": [["param", 2, "direct"]]}], "helpers": [],
                       "nfiles": 2, "alias": False, "shape": "name-inner", "acyclic": True, "clean": True, "naming": "clash"})
+    return specs
+
+
+def error_graph_specs():
+    """types that are in the analyzer's graph but not emitted (error position of a Result, at several nestings) and point
+    into the emitted set; the emitted struct they point to has a dependency that sorts after / before it"""
+    specs = []
+    for (a, b) in (("Order", "Product"), ("Zeta", "Alpha"), ("Item", "ItemKind")):
+        for rk, rctx in enumerate(["err", "result_err", "opt_result_err", "vec_result_err"]):
+            for ectx in ("direct", "vec", "option"):
+                types = [{"name": a, "kind": "struct", "derives": list(SD2), "file": 0},
+                         {"name": b, "kind": "struct", "derives": list(SD2), "file": 1},
+                         {"name": "RejectedInput", "kind": "struct", "derives": ["Debug", "Serialize"], "file": 1},
+                         {"name": "Meta", "kind": "struct", "derives": list(SD2), "file": 0}]
+                edges = [[0, 1, ["direct", "vec_tuple", "map_value"][rk % 3]], [2, 0, ectx], [2, 3, "direct"]]
+                ret = [["ret", 3, "direct"], ["err", 2, "direct"]] if rctx == "err" else [["ret", 2, rctx]]
+                cmds = [{"name": "submit", "file": 0, "roots": [["param", 0, "direct"]] + ret},
+                        {"name": "lookup", "file": 1, "roots": [["param", 1, "option"], ["param", 3, "direct"]]}]
+                specs.append({"types": types, "edges": edges, "cmds": cmds, "helpers": [], "nfiles": 2, "alias": False,
+                              "shape": "error-graph", "acyclic": True, "clean": True, "naming": "plain"})
+    return specs
+
+
+def mapping_specs():
+    """type_mappings naming a project-defined serde type that has fields of other project types, crossed with the small
+    dependency shapes: the mapped type as a leaf, as an inner node, as a root; its field type also a root or only below it"""
+    specs = []
+    for (m, u) in (("Money", "Unit"), ("Amount", "Zone"), ("Stamp", "Clock")):
+        for target in ("string", "number"):
+            for shape in range(4):
+                types = [{"name": "Invoice", "kind": "struct", "derives": list(SD2), "file": 0},
+                         {"name": m, "kind": "struct", "derives": list(SD2), "file": 1},
+                         {"name": u, "kind": "struct", "derives": list(SD2), "file": shape % 2},
+                         {"name": "Line", "kind": "struct", "derives": list(SD2), "file": 1}]
+                edges = [[0, 1, ["direct", "vec", "option", "map_value"][shape]], [1, 2, ["direct", "opt_vec", "tuple_last", "vec"][shape]]]
+                roots = [["param", 0, "direct"]]
+                if shape % 2 == 0:
+                    edges.append([0, 2, "option"])              # the field's type is mentioned by an emitted type as well
+                if shape == 1:
+                    edges += [[3, 1, "vec"], [0, 3, "vec"]]     # mapped type below two holders
+                if shape == 3:
+                    roots.append(["ret", 1, "result_ok"])       # the mapped type is a root itself
+                specs.append({"types": types, "edges": edges, "cmds": [{"name": "bill", "file": 0, "roots": roots}], "helpers": [],
+                              "nfiles": 2, "alias": False, "shape": "mapping", "acyclic": True, "clean": True, "naming": "plain",
+                              "type_mappings": {m: target, "ForeignDateTime": "string"}})
     return specs
